@@ -15,6 +15,7 @@ import (
 	"sort"
 	"strconv"
 	"strings"
+	"syscall"
 	"time"
 
 	"github.com/c2h5oh/datasize"
@@ -37,6 +38,8 @@ const (
 	opCrash        = 9
 	opTamper       = 10
 	opRestartNoDir = 11
+	opHold         = 12 // plant an empty FIFO under the name, Restart: the feeder blocks in open(2) when it loads it
+	opRelease      = 13 // open the FIFO for writing: the feeder goes on (and finds a zero-length chunk)
 )
 
 type bufOp struct{ Code, A, B, C int64 }
@@ -82,6 +85,7 @@ type c03World struct {
 	cons   int
 	hold   []base.LogChunk
 	closed bool
+	held   string // name of the FIFO the feeder is (to be) blocked on
 	fpc    byte
 	ever   map[string]bool
 	gens   []*c03Generation
@@ -95,6 +99,8 @@ type c03World struct {
 	staleObs []int64 // successor of a killed process: the observables of the dead process until the next start
 	ownRoot bool
 	faults  bool // write scripts beyond open/rename failures are available (victim process: RLIMIT_FSIZE, kill points)
+
+	maxLoadedQueued int64 // largest value of queued_chunks{transient} seen (loaded chunks waiting in the queue)
 
 	hash  int64
 	fails []Fail
@@ -175,6 +181,10 @@ func (w *c03World) listDir() map[string][]byte {
 			out[e.Name()] = nil
 			continue
 		}
+		if e.Type()&os.ModeNamedPipe != 0 {
+			out[e.Name()] = []byte{} // a FIFO looks like an empty file to stat and to the feeder
+			continue
+		}
 		b, err := os.ReadFile(filepath.Join(w.qdir, e.Name()))
 		if err != nil {
 			b = []byte("<unreadable>")
@@ -232,8 +242,9 @@ func (w *c03World) peek() (int, int, bool) {
 var c03StackBuf = make([]byte, 4<<20)
 
 type c03FeederState struct {
-	id    int
-	where byte // 'r' blocked receiving from the queue, 'p' blocked in the select of loadToOutput, 'a' waiting for consumers, 0 running
+	id      int
+	where   byte // 'r' blocked receiving from the queue, 'p' blocked in the select of loadToOutput, 'a' waiting for consumers, 0 running
+	inRead  bool // in a system call below util.ReadFileAt (blocked for good only when the file is the harness's FIFO)
 }
 
 func c03FeederStates() []c03FeederState {
@@ -271,7 +282,8 @@ func c03FeederStates() []c03FeederState {
 		case (strings.HasPrefix(st, "semacquire") || strings.HasPrefix(st, "sync.WaitGroup.Wait")) && strings.Contains(g, "TrackedWaitGroup).Wait"):
 			where = 'a'
 		}
-		out = append(out, c03FeederState{id, where})
+		inRead := strings.HasPrefix(st, "syscall") && strings.Contains(g, "util.ReadFileAt")
+		out = append(out, c03FeederState{id, where, inRead})
 	}
 	return out
 }
@@ -293,9 +305,14 @@ func (w *c03World) quiesce() bool {
 				continue
 			}
 			if f.where != 0 {
-				// parked; make sure it is still the same picture after the peeks are taken
 				w.curFeeder = f.id
 				w.fpc = f.where
+				return true
+			}
+			if w.held != "" && f.inRead {
+				// the held chunk is the first of the queue: the only file the feeder opens is the FIFO
+				w.curFeeder = f.id
+				w.fpc = 'l'
 				return true
 			}
 		}
@@ -314,6 +331,64 @@ func (w *c03World) quiesce() bool {
 // ---------- operations ----------
 
 func (w *c03World) down() bool { return !w.up || w.fpc == 'z' }
+
+// doHold: an empty FIFO under a name that sorts before every chunk file, then a start: the feeder takes it
+// first and blocks in open(2)
+func (w *c03World) doHold(name string, Q, M int, maxb int64) bool {
+	if w.held != "" || !w.down() || Q < 1 || M < 1 || maxb < 0 {
+		return false
+	}
+	if name == "" || strings.ContainsAny(name, "/\x00") || !c03Match(name) || w.ever[name] {
+		return false
+	}
+	for k := range w.listDir() {
+		if c03Match(k) && k < name {
+			return false
+		}
+	}
+	if w.up {
+		w.finishGen()
+	}
+	w.up = false
+	w.fpc = 'x'
+	p := filepath.Join(w.qdir, name)
+	os.RemoveAll(p)
+	if err := syscall.Mkfifo(p, 0o644); err != nil {
+		w.fail("c03:harness", "mkfifo: "+err.Error())
+		return false
+	}
+	w.held = name
+	return w.doRestart(Q, M, maxb, true)
+}
+
+func (w *c03World) doRelease() bool {
+	if w.held == "" || !w.up || w.fpc != 'l' {
+		return false
+	}
+	w.releaseFifo()
+	w.quiesce()
+	return true
+}
+
+func (w *c03World) releaseFifo() {
+	name := w.held
+	w.held = ""
+	if name == "" {
+		return
+	}
+	done := make(chan struct{})
+	go func() {
+		defer close(done)
+		if f, err := os.OpenFile(filepath.Join(w.qdir, name), os.O_WRONLY, 0); err == nil {
+			f.Close()
+		}
+	}()
+	select {
+	case <-done:
+	case <-time.After(5 * time.Second):
+		w.fail("c03:harness", "nobody was reading the FIFO")
+	}
+}
 
 func (w *c03World) doRestart(Q, M int, maxb int64, dirok bool) bool {
 	if !w.down() || Q < 1 || M < 1 || maxb < 0 {
@@ -643,6 +718,9 @@ func (w *c03World) observeStep() {
 	for _, v := range m {
 		w.hash = mixHash(w.hash, v)
 	}
+	if m[9] > w.maxLoadedQueued {
+		w.maxLoadedQueued = m[9]
+	}
 	g := w.cur
 	if g == nil || !w.up {
 		return
@@ -693,7 +771,23 @@ func (w *c03World) entrySize(dir map[string][]byte, id string) int64 {
 
 // exec performs one operation; false = not applicable in the current state (the model rejects it too)
 func (w *c03World) exec(op bufOp) bool {
+	if w.held != "" {
+		// while the feeder is held: accept, register, touch foreign files, release - nothing else
+		switch op.Code {
+		case opAccept, opRegister, opRelease:
+		case opTamper:
+			if c03Match(string(w.poolGet(op.A))) {
+				return false
+			}
+		default:
+			return false
+		}
+	}
 	switch op.Code {
+	case opHold:
+		return w.doHold(string(w.poolGet(op.A)), int(op.B/1000), int(op.B%1000), op.C)
+	case opRelease:
+		return w.doRelease()
 	case opRestart:
 		return w.doRestart(int(op.A), int(op.B), op.C, true)
 	case opRestartNoDir:
@@ -779,6 +873,7 @@ func (w *c03World) output() string {
 
 // cleanup ends every bufferer created by this world so that no goroutine or descriptor is left behind
 func (w *c03World) cleanup() {
+	w.releaseFifo()
 	for _, b := range w.allBufs {
 		if b.Stopped().Peek() {
 			continue
